@@ -166,8 +166,12 @@ def decorations(v, modname, tier, rng, pool=None):
         for _ in range(3):
             yield ('mixedcase', ''.join(c.upper() if rng.random() < 0.5 else c.lower() for c in v))
     if v[:1].isdigit():
-        for k in (1, 3, 5, 8):
+        for k in (1, 2, 3, 4, 5, 8):
             yield ('zeropad', '0' * k + v)
+        if len(v) > 4 and v.isdigit():
+            for k in (1, 2, 4):
+                yield ('zeropad-sep', '0' * k + '.' + v)
+                yield ('zeropad-sep', '0' * k + ' ' + v)
     for ch in (' ', '\t', '\n', '\r\n', ' ', '\x1c'):
         yield ('surround', ch + v + ch)
         yield ('surround', v + ch)
